@@ -72,6 +72,11 @@ def main():
         P.update(manifest_extra.EXTRA)
     except ImportError:
         pass
+    try:
+        import manifest_texts
+        P.update(manifest_texts.TEXTS)
+    except ImportError:
+        pass
     checks = []
     na = []
     for pid in sorted(P):
